@@ -81,6 +81,12 @@ CHECKS = {
  "C33": dict(tech=TECH+"dominance rules on the keep-alive loop's select cases (Stop / Reset only for Active / created stopped / tick pings), who-may-write rule for the client state, guard rule for ping retransmissions, slot-order rule for PINGRESP routing",
    text="Gating and routing structure. Ping retransmissions that are not state-gated and the PINGRESP slot order (keep-alive steals the sleep transaction's PINGRESP) are genuine defects recorded as known findings; 'at least once per KeepAlive period' is timing and not decided.",
    note="Trusted: go/ssa, time.Ticker.", ref="4/C33"),
+ "C30": dict(tech=TECH+"sibling comparison of the three CLI action closures: each explored for the four (file flag given, option flag given) combinations with symbolic map values, checked against the specified feature vector; shape rule for Merge",
+   text="All three tools read the file flag with ReadPredefinedTopicsFile, parse the option flag with ParsePredefinedTopicOptions, merge the options INTO the file mapping and hand that mapping to the gateway/client configuration and to their own lookups. YAML decoding is not decided.",
+   note="Trusted: go/ssa, urfave/cli flag lookup.", ref="4/C30"),
+ "C31": dict(tech=TECH+"exhaustive finite-domain exploration of each tool's action closure over (--dtls, --insecure value/presence, --auth or --user presence/emptiness); guard rule and per-iteration event-order rule for CONNECT/AUTH in the client library",
+   text="All flag/env combinations are decided (the abstract domain is finite and fully enumerated; env aliases are part of the flag declarations), plus AUTH-iff-user and AUTH-right-after-every-CONNECT for two loop iterations of the connect routine. That DTLS actually encrypts is not decided.",
+   note="Trusted: go/ssa, urfave/cli (Bool/IsSet semantics, environment aliases).", ref="4/C31"),
 }
 
 NA = {
